@@ -81,6 +81,35 @@ func ruleErrState(p *Prog, r *RuleResult) {
 		return okAll
 	}
 	altOK := readZeroes()
+	// Reader.Read reports the error of processBlock in the same call (it must not keep it for "the next call":
+	// by then the counter is cancelled and processBlock answers with a clean end of stream)
+	rd := p.Method("io", "Reader", "Read")
+	eachInstr(rd, func(i ssa.Instruction) {
+		c, ok := i.(*ssa.Call)
+		if !ok || c.Call.StaticCallee() != f {
+			return
+		}
+		ifi, succ, ok := errEdgeOf(c)
+		if !ok {
+			r.fail(p.FnName(rd)+"#processBlock-error", p.IPos(c), "Reader.Read does not test the error of processBlock")
+			return
+		}
+		bad := false
+		for rb := range reach(ifi.Block().Succs[succ], nil, nil) {
+			if ret, ok := rb.Instrs[len(rb.Instrs)-1].(*ssa.Return); ok && rb != rd.Recover && retMayBeNil(ret, len(ret.Results)-1) {
+				ev, _ := errResult(c)
+				if stripConv(ret.Results[len(ret.Results)-1]) == ev {
+					continue
+				}
+				bad = true
+				r.fail(p.FnName(rd)+"#processBlock-error", p.IPos(ret), "after processBlock failed, Reader.Read can return without an error: the failure is dropped, the next call finds the stream cancelled and reports a clean end of stream")
+				break
+			}
+		}
+		if !bad {
+			r.ok(p.FnName(rd)+": an error of processBlock is returned by the same Read call", p.IPos(ifi))
+		}
+	})
 	nret := 0
 	var k keyer
 	for _, b := range f.Blocks {
@@ -129,18 +158,9 @@ func ruleErrState(p *Prog, r *RuleResult) {
 		f = sf
 		fname = p.FnName(f)
 	}
-	rst := s.resT.Underlying().(*types.Struct)
-	fieldNamed := func(n string) *types.Var {
-		for i := 0; i < rst.NumFields(); i++ {
-			if rst.Field(i).Name() == n {
-				return rst.Field(i)
-			}
-		}
-		return nil
-	}
-	skipped, decodedF, dataF := fieldNamed("skipped"), fieldNamed("decoded"), fieldNamed("data")
+	skipped, decodedF, dataF := s.skippedF, s.decodedF, s.dataF
 	if skipped == nil || decodedF == nil || dataF == nil {
-		undecided("decodingTaskResult fields skipped/decoded/data not found")
+		undecided("cannot identify the skipped / decoded / data fields of the decode result type")
 	}
 	var keepEdges []edge
 	for _, b := range f.Blocks {
@@ -196,8 +216,12 @@ func ruleErrState(p *Prog, r *RuleResult) {
 		if fieldVarOfLoad(x) != decodedF {
 			continue
 		}
+		// the bound must be a field of the Reader itself (the declared block size), not a local that may be padded
 		fy := fieldVarOfLoad(y)
-		if fy == nil || fy.Name() != "blockSize" {
+		if fy == nil {
+			continue
+		}
+		if u, ok := y.(*ssa.UnOp); !ok || namedOf(u.X.(*ssa.FieldAddr).X.Type()) == nil || namedOf(u.X.(*ssa.FieldAddr).X.Type()).Obj().Name() != "Reader" {
 			continue
 		}
 		var tooBig *ssa.BasicBlock
